@@ -201,7 +201,7 @@ pub fn replay_case(id: &str, op: &str, case: &serde_json::Value) -> Result<(), S
         (_, "deep_tower") => deep::replay_case(id, case),
         (_, "edited_clone") => c08e::replay_case(case),
         (_, "push_once") => c17::replay_case(case),
-        (_, "classification_items") => c15::replay_case(case),
+        (_, "classification_items") | (_, "classification_batch") | (_, "classification_pair") => c15::replay_case(case),
         (_, "derived_constructor") => c10::replay_case(case),
         (_, "route") => c06::replay_route(case),
         (_, "macro") | (_, "typst_item") => Err("this case is part of a fixed list that the check evaluates in one go (macro invocations compiled into the harness / the item sweep); re-run the check to re-evaluate".into()),
